@@ -89,8 +89,7 @@ def run(c):
                 dict(case=cases[idx], observed={k: e[k] for k in ("encok", "decok", "panic", "pfn", "bytes", "d")}, how="harness codec run; validate with Trace_C02"))
 
     def confirm(idx, t):
-        e0 = json.loads(events[idx])
-        return confirm_case(c, drv, cases[idx], lambda e: e == e0)
+        return confirm_by_tlc(c, drv, cases[idx], "Trace_C02", t[2], context=cases[max(0, idx - 2):idx])
     c.triage(mism, classify, confirm)
     c.cov["rule"] = "cases = build/encode/decode of one message value on the real code; distinct non-trivial = distinct (message, slot values) tuples; every case has all mandatory slots and usually >= 1 optional element"
     c.cov["messages"] = len(bym)
